@@ -170,6 +170,43 @@ theorem image_has_size (c : List (Local E X)) :
 theorem one_file_per_rank (c : List (Local E X)) : (serializeAll c).length = c.length := by
   simp [serializeAll]
 
+/-! ## the target may have unflushed operations
+
+`deserialize` starts with `barrier()`: operations issued on the TARGET before the call and still
+in flight (send buffers, counting_set's count cache) are applied first (`afterBarrier`), and only
+then is the rank file loaded over the result. -/
+
+/-- one rank: pending operations on the target do not survive `deserialize` -/
+theorem deserialize_discards_pending_rank (d : Disc) (key : E → K) (lt : K → K → Bool) {Op : Type}
+    (apply : Local E X → Op → Local E X) (img : Image E X) (old : Local E X) (arr : List Op) :
+    deserializeRank d key lt img (afterBarrier apply old arr) = deserializeRank d key lt img old := rfl
+
+/-- all ranks: `target_irrelevant` also covers targets with unflushed operations — whatever
+each rank had pending (`arrs`), the reloaded container is the one loaded into a quiescent target -/
+theorem deserialize_discards_pending (d : Disc) (key : E → K) (lt : K → K → Bool) {Op : Type}
+    (apply : Local E X → Op → Local E X) (imgs : List (Image E X)) (tgt : List (Local E X))
+    (arrs : List (List Op)) (h : arrs.length = tgt.length) :
+    deserializeAll d key lt imgs (List.zipWith (afterBarrier apply) tgt arrs) =
+      deserializeAll d key lt imgs tgt :=
+  target_irrelevant d key lt imgs _ _ (by simp [h])
+
+/-! ## file names -/
+
+/-- writer and reader use the same name `fname + to_string(rank)` (one definition, `rankFileName`);
+different ranks get different names, for every communicator size (9, 10, 11, 100 … alike) -/
+theorem rank_file_names_distinct (fname : Bytes) {a b : Nat}
+    (h : rankFileName fname a = rankFileName fname b) : a = b := by
+  unfold rankFileName at h
+  exact YgmVerif.Out.dec_injective (List.append_cancel_left h)
+
+/-- `serialize` on `n` ranks creates `n` pairwise different files -/
+theorem fileNames_nodup (fname : Bytes) (n : Nat) :
+    (fileNames fname n).length = n ∧ (fileNames fname n).Nodup := by
+  refine ⟨by simp [fileNames], ?_⟩
+  unfold fileNames
+  rw [List.Nodup, List.pairwise_map]
+  exact List.Pairwise.imp (fun h e => h (rank_file_names_distinct fname e)) List.nodup_range
+
 /-! ## reused file prefix
 
 `Files` is what the rank files `fname + r` hold before the call — anything: nothing, images of
